@@ -30,6 +30,11 @@ Fixpoint final_ctx (hc : hcase) (steps : list hstep) (c : ctx) : option ctx :=
     | Out c1 _ _ => final_ctx hc r c1
     | _ => None
     end
+  | HRenderF t fail short _ _ _ :: r =>
+    match render (hc_flits hc) (reg_lookup (hc_reg hc)) (hc_budget hc) 8 t (clear_log c) (wr_new (Some fail) short) with
+    | Out c1 _ _ => final_ctx hc r c1
+    | _ => None
+    end
   end.
 
 Lemma check_history_app hc : forall pre rest c,
@@ -38,6 +43,7 @@ Lemma check_history_app hc : forall pre rest c,
 Proof.
   induction pre as [|s pre IH]; intros rest c; [reflexivity|].
   destruct s; cbn [app check_history final_ctx]; try apply IH.
+  - destruct (render _ _ _ _ _ _ _) as [c1 w1 e1| |]; try reflexivity. cbn [app]. f_equal. apply IH.
   - destruct (render _ _ _ _ _ _ _) as [c1 w1 e1| |]; try reflexivity. cbn [app]. f_equal. apply IH.
   - cbn [app]. f_equal. apply IH.
 Qed.
@@ -80,8 +86,8 @@ Theorem final_ctx_after_reset hc pre evs c c' :
 Proof.
   revert c. induction pre as [|s pre IH]; intros c F.
   - reflexivity.
-  - destruct s; cbn [app final_ctx] in *; try (apply IH; exact F).
-    destruct (render _ _ _ _ _ _ _) as [c1 w1 e1| |]; try discriminate F. apply IH, F.
+  - destruct s; cbn [app final_ctx] in *; try (apply IH; exact F);
+      (destruct (render _ _ _ _ _ _ _) as [c1 w1 e1| |]; try discriminate F; apply IH, F).
 Qed.
 
 (* ================================================================== Part B *)
@@ -692,6 +698,11 @@ Fixpoint hist_pools (hc : hcase) (steps : list hstep) (c : ctx) : list bytes :=
     | Out c1 _ _ => acquires (elog c1) ++ hist_pools hc r c1
     | _ => []
     end
+  | HRenderF t fail short _ _ _ :: r =>
+    match render (hc_flits hc) (reg_lookup (hc_reg hc)) (hc_budget hc) 8 t (clear_log c) (wr_new (Some fail) short) with
+    | Out c1 _ _ => acquires (elog c1) ++ hist_pools hc r c1
+    | _ => []
+    end
   end.
 
 Lemma acquires_runs n l : acquires (rev (map (fun t => EvRun t n) l)) = [].
@@ -716,6 +727,14 @@ Proof.
     + destruct (sf_ctx_set_counter k n c) as (S1 & _ & S3 & _). rewrite <- S3.
       apply IH; [exact NR|rewrite S1; exact W|exact F].
     + destruct (render _ _ _ _ _ _ _) as [c1 w1 e1| |] eqn:RD; try discriminate F.
+      assert (Wc : wd (clear_log c) = O) by exact W.
+      destruct (render_deferred _ _ _ _ _ _ _ _ _ _ Wc RD) as (evs & N & W1 & P1 & L).
+      destruct (IH c1 c' NR W1 F) as [IP IW]. split; [|exact IW].
+      rewrite IP, P1. cbn [ipv clear_log]. rewrite <- app_assoc. f_equal. f_equal.
+      destruct e1; destruct L as [L _]; rewrite L; cbn [elog clear_log]; rewrite !app_nil_r; [reflexivity|].
+      rewrite acquires_app, acquires_runs, app_nil_r. reflexivity.
+    + (* a render through a failing writer: the same bookkeeping *)
+      destruct (render _ _ _ _ _ _ _) as [c1 w1 e1| |] eqn:RD; try discriminate F.
       assert (Wc : wd (clear_log c) = O) by exact W.
       destruct (render_deferred _ _ _ _ _ _ _ _ _ _ Wc RD) as (evs & N & W1 & P1 & L).
       destruct (IH c1 c' NR W1 F) as [IP IW]. split; [|exact IW].
@@ -1304,3 +1323,72 @@ Example history_bookkeeping_example :
   check_history hc_ex steps_bk ctx_new = [HOk; HOk; HOk; HOk] /\
   hist_pools hc_ex (firstn 2 steps_bk) ctx_new = [Bs "p1"].
 Proof. vm_compute. split; reflexivity. Qed.
+
+(* ================================================================== renders through a failing writer *)
+
+(* All history theorems above quantify over histories with HRenderF steps too ([final_ctx],
+   [hist_pools] and the inductions have the case).  What is specific to a faulted render: *)
+
+(* a render during which the writer fails returns the writer error, runs NO deferred function, and
+   leaves the functions it registered pending (with those pending before); what it acquired from
+   pools stays held *)
+Theorem faulted_render_keeps_deferred flits lookup budget depth t c w c' w' e :
+  wd c = O -> w_failed w = false ->
+  render flits lookup budget depth t c w = Out c' w' e -> w_failed w' = true ->
+  e = Some EWriter /\
+  exists evs, no_run evs /\ elog c' = evs ++ elog c /\ dfr c' = dfr c ++ defers evs /\
+              ipv c' = ipv c ++ acquires evs /\ wd c' = O.
+Proof.
+  intros W Hw E F. pose proof (fault_render flits lookup budget depth t c w c' w' e Hw E F) as He. subst e.
+  split; [reflexivity|].
+  destruct (render_deferred flits lookup budget depth t c w c' w' _ W E) as (evs & N & W' & P & L & D).
+  exists evs. repeat split; assumption.
+Qed.
+
+(* any error, not only the writer's: nothing deferred runs *)
+Theorem failed_render_runs_no_deferred flits lookup budget depth t c w c' w' x :
+  wd c = O -> render flits lookup budget depth t c w = Out c' w' (Some x) ->
+  exists evs, no_run evs /\ elog c' = evs ++ elog c /\ dfr c' = dfr c ++ defers evs /\ ipv c' = ipv c ++ acquires evs.
+Proof.
+  intros W E. destruct (render_deferred flits lookup budget depth t c w c' w' _ W E) as (evs & N & W' & P & L & D).
+  exists evs. repeat split; assumption.
+Qed.
+
+(* the Reset after it: the pending functions are dropped without running (the log gains releases
+   only), every pooled object still held goes back exactly once, and the context is a new one *)
+Theorem reset_after_failed_render c :
+  dfr (ctx_reset (clear_log c)) = [] /\ ipv (ctx_reset (clear_log c)) = [] /\
+  rev (elog (ctx_reset (clear_log c))) = map EvRelease (ipv c) /\
+  clear_log (ctx_reset (clear_log c)) = ctx_new.
+Proof.
+  split; [reflexivity|]. split; [reflexivity|]. split; [|reflexivity].
+  rewrite reset_state. cbn [elog clear_log ipv]. rewrite app_nil_r. apply rev_involutive.
+Qed.
+
+(* example: "a", a print that registers d1 and acquires p1, "b" -- through a writer that refuses
+   its third write: d1 never runs (the fault-free render runs it), p1 is released by the Reset,
+   and the render after the Reset is judged as on a new context (x is gone: the modifiers still run
+   on nil, nothing is printed for it); the last Reset gives back the two objects acquired since *)
+Definition t_bk_text : tree :=
+  [NRaw (Bs "a");
+   NTpl (Bs "x") [] [] false [mkMod (Bs "vdefer") [mkArg [] (Bs "d1") true false];
+                              mkMod (Bs "vacquire") [mkArg [] (Bs "p1") true false]];
+   NRaw (Bs "b")].
+Definition steps_fault : list hstep :=
+  [HSet (Bs "x") (VStr (Bs "v")) false;
+   HRenderF t_bk_text 3 0 (Bs "av") 16 [EvDefer (Bs "d1"); EvAcquire (Bs "p1") 1];
+   HReset [EvRelease (Bs "p1")];
+   HRender t_bk_text (Bs "ab") 0 [EvDefer (Bs "d1"); EvAcquire (Bs "p1") 1; EvRun (Bs "d1") 2];
+   HSet (Bs "x") (VStr (Bs "v")) false;
+   HRender t_bk_text (Bs "avb") 0 [EvDefer (Bs "d1"); EvAcquire (Bs "p1") 1; EvRun (Bs "d1") 3];
+   HReset [EvRelease (Bs "p1"); EvRelease (Bs "p1")]].
+
+Example history_fault_example :
+  check_history hc_ex steps_fault ctx_new = [HOk; HOk; HOk; HOk; HOk] /\
+  (match final_ctx hc_ex (firstn 2 steps_fault) ctx_new with
+   | Some c => dfr c = [Bs "d1"] /\ ipv c = [Bs "p1"] /\ forallb (fun ev => match ev with EvRun _ _ => false | _ => true end) (elog c) = true
+   | None => False
+   end) /\
+  hist_pools hc_ex (firstn 2 steps_fault) ctx_new = [Bs "p1"] /\
+  final_ctx hc_ex (firstn 3 steps_fault) ctx_new = Some ctx_new.
+Proof. vm_compute. repeat split. Qed.
